@@ -1,17 +1,22 @@
 (* C18: run the Type 2 charstring model on one case line and judge the implementation's outline.
-   input  = M|K|gid|gsubrs|fds|fdsel|glyphs|charset|var
+   input  = M|K|gid|gsubrs|fds|fdsel|glyphs|charset|var|offs[|seac]
      M       d (debug build) | r (release)
      K       t (name-keyed CFF) | c (CID-keyed CFF) | 2 (CFF2)
+             | q (name-keyed CFF; no outline: Charset::sid_to_gid for the SIDs 0..255, then
+                  Charset::id_for_glyph for the glyphs 0..nGlyphs, which only the judge looks at)
      gsubrs  list of charstrings: "." (empty list) or items separated by ","; an item is HEX or "-"
              (empty string), optionally followed by "*N" (N copies)
      fds     per Font DICT, separated by "/": "~" (no Subrs operator) or a list as above
      fdsel   font dict index per glyph ("," separated) or "-"
      glyphs  list as above
-     charset i (ISOAdobe) | e (Expert) | cSID,SID,... (format 0 custom charset)
+     charset i (ISOAdobe) | e (Expert) | x (ExpertSubset) | cSID,SID,... (format 0 custom charset)
+             | r1:FIRST+NLEFT,... (format 1) | r2:FIRST+NLEFT,... (format 2)
+     seac    optional: sADX,ADY,BCHAR,ACHAR -- glyph `gid` is, by construction, the seac form of
+             endchar with these operands over two plain glyphs (see `seac_expectation`)
      var     "-" or  A;tuple;regions;ivds;vsdefaults
              tuple = A F2Dot14 raw values; regions = "/" separated, each 3A values (start,peak,end per
              axis); ivds = "/" separated region-index lists ("." empty); vsdefaults = per Font DICT
-   output = ok:CMDS | bbox:CMDS | err:Name | panic | fuel
+   output = ok:CMDS | bbox:CMDS | err:Name | panic | fuel | q:GID,...,GID  ("-" = None)
      CMDS = commands separated by ";":  M x y | L x y | C x1 y1 x2 y2 x y | Z *)
 open Model
 open Zconv
@@ -80,12 +85,42 @@ let objects_of (glyphs : z list list) (offs : string) (gid : z) : z list list * 
     (match List.nth_opt objs (z_to_int gid) with Some None -> false | _ -> true)
   end
 
-let env_of_input (input : string) : env * bool =
+(* "r1:F+N,F+N" -> [(F, N)] *)
+let ranges_of (cs : string) : (int * int) list =
+  let body = String.sub cs 3 (String.length cs - 3) in
+  if body = "" then [] else
+  List.map (fun r -> match split_on '+' r with
+      | [f; n] -> (int_of_string f, int_of_string n)
+      | _ -> failwith "c18 range") (split_on ',' body)
+
+(* read_range_array keeps the ranges up to the one that completes the glyph count *)
+let rec kept_ranges (n : int) (rs : (int * int) list) : (int * int) list =
+  if n <= 0 then [] else
+  match rs with
+  | [] -> []
+  | (f, l) :: r -> (f, l) :: kept_ranges (n - l - 1) r
+
+let is_ranges (cs : string) : bool = starts_with "r1:" cs || starts_with "r2:" cs
+
+let fields (input : string) : string list =
   match split_on '|' input with
+  | [m; k; gid; gs; fds; fdsel; glyphs; cs; var; offs; _seac] -> [m; k; gid; gs; fds; fdsel; glyphs; cs; var; offs]
+  | l -> l
+
+let seac_field (input : string) : string option =
+  match split_on '|' input with
+  | [_; _; _; _; _; _; _; _; _; _; s] -> Some s
+  | _ -> None
+
+let env_of_input (input : string) : env * bool =
+  match fields input with
   | [m; k; gid; gs; fds; fdsel; glyphs; cs; var; offs] ->
     let fds = List.map (fun f -> if f = "~" then None else Some (parse_list f)) (split_on '/' fds) in
+    let nglyphs = List.length (parse_list glyphs) in
     let charset =
-      if cs = "i" then CsISOAdobe else if cs = "e" then CsExpert
+      if cs = "i" then CsISOAdobe else if cs = "e" then CsExpert else if cs = "x" then CsExpertSubset
+      else if is_ranges cs then
+        CsRanges (List.map (fun (f, n) -> (z_of_int f, z_of_int n)) (kept_ranges (nglyphs - 1) (ranges_of cs)))
       else CsCustom (ints (String.sub cs 1 (String.length cs - 1))) in
     let variable, vsdef, scalars =
       if var = "-" then false, List.map (fun _ -> Z0) fds, []
@@ -110,8 +145,23 @@ let env_of_input (input : string) : env * bool =
       e_scalars = scalars }, snd (objects_of (parse_list glyphs) offs (z_of_string gid))
   | _ -> failwith "c18 input"
 
+(* K = q: Charset::sid_to_gid for the SIDs 0..255 *)
+let run_query (e : env) : string =
+  let rec go sid acc =
+    if sid > 255 then "q:" ^ String.concat "," (List.rev acc) else
+    match charset_sid_to_gid e.e_mode e.e_charset (z_of_int sid) with
+    | COk (Some g) -> go (sid + 1) (z_to_string g :: acc)
+    | COk None -> go (sid + 1) ("-" :: acc)
+    | CErr er -> "err:" ^ cfferr_to_string er
+    | CPanic -> "panic"
+    | CFuel -> "fuel" in
+  go 0 []
+
+let kind_field (input : string) : string = List.nth (split_on '|' input) 1
+
 let run (input : string) : string =
   let e, readable = env_of_input input in
+  if kind_field input = "q" then run_query e else
   if not readable then "err:ParseBadIndex" else
   match interp_glyph e with
   | COk s ->
@@ -134,9 +184,92 @@ let count_sub (sub : string) (s : string) : int =
   for i = 0 to String.length s - n do if String.sub s i n = sub then incr c done; !c
 
 (* class of the case for the histogram: font kind, result kind, and which features were exercised *)
+(* ---------- the charset as the specification defines it (TN5176 sections 13, 18 and appendix B),
+   written without the model: used by the judges of the seac and charset-query cases ---------- *)
+
+(* Adobe StandardEncoding: code -> SID (appendix B; the SIDs 1..149 are the standard strings in
+   the order of StandardEncoding) *)
+let std_sid (c : int) : int =
+  if 32 <= c && c <= 126 then c - 31
+  else if 161 <= c && c <= 175 then c - 65
+  else if 177 <= c && c <= 180 then c - 66
+  else if 182 <= c && c <= 189 then c - 67
+  else if c = 191 then 123
+  else if 193 <= c && c <= 200 then c - 69
+  else if 202 <= c && c <= 203 then c - 70
+  else if 205 <= c && c <= 208 then c - 71
+  else if c = 225 then 138
+  else if c = 227 then 139
+  else if 232 <= c && c <= 235 then c - 92
+  else if c = 241 then 144
+  else if c = 245 then 145
+  else if 248 <= c && c <= 251 then c - 102
+  else 0
+
+let int_list (s : string) : int list =
+  if s = "-" || s = "." || s = "" then [] else List.map int_of_string (split_on ',' s)
+
+let nglyphs_of (f : string list) : int = List.length (parse_list (List.nth f 6))
+
+(* the SID of every glyph from glyph 1 on, as the charset data lists them; None: Expert /
+   ExpertSubset (not judged independently) *)
+let charset_names (f : string list) : int list option =
+  let cs = List.nth f 7 in
+  if cs = "i" then Some (List.init 228 (fun i -> i + 1))
+  else if cs = "e" || cs = "x" then None
+  else if is_ranges cs then
+    Some (List.concat_map (fun (first, n) -> List.init (n + 1) (fun i -> first + i))
+            (kept_ranges (nglyphs_of f - 1) (ranges_of cs)))
+  else Some (int_list (String.sub cs 1 (String.length cs - 1)))
+
+(* the glyph a SID names: .notdef for SID 0, else the first glyph whose charset entry is the SID *)
+let glyph_named (names : int list) (sid : int) : int option =
+  if sid = 0 then Some 0 else
+  let rec go i = function
+    | [] -> None
+    | x :: r -> if x = sid then Some i else go (i + 1) r in
+  match go 1 names with Some g when g <= 65535 -> Some g | _ -> None
+
+(* where a glyph sits in the ranges of a format 1 / 2 charset: F first, L last, O only, M middle *)
+let range_position (f : string list) (g : int) : string =
+  let cs = List.nth f 7 in
+  if not (is_ranges cs) then "" else
+  let rec go start = function
+    | [] -> "?"
+    | (_, n) :: r ->
+      if g < start then "?"
+      else if g <= start + n then
+        (if n = 0 then "O" else if g = start then "F" else if g = start + n then "L" else "M")
+      else go (start + n + 1) r in
+  if g = 0 then "0" else go 1 (kept_ranges (nglyphs_of f - 1) (ranges_of cs))
+
+let seac_operands (input : string) : (int * int * int * int) option =
+  match seac_field input with
+  | Some s when String.length s > 1 && s.[0] = 's' ->
+    (match int_list (String.sub s 1 (String.length s - 1)) with
+     | [adx; ady; b; a] -> Some (adx, ady, b, a)
+     | _ -> None)
+  | _ -> None
+
+let charset_letter (cs : string) : string =
+  if cs = "" then "?" else if starts_with "r1:" cs then "1" else if starts_with "r2:" cs then "2"
+  else if cs.[0] = 'c' then "0" else String.make 1 cs.[0]
+
 let tag (input : string) (out : string) : string =
-  let f = split_on '|' input in
+  let f = fields input in
   let k = List.nth f 1 in
+  if k = "q" then "q:" ^ charset_letter (List.nth f 7) ^ ":" ^ kind_of out else
+  (* seac cases: charset format and where the two components sit in their ranges *)
+  let k = match seac_operands input with
+    | None -> k
+    | Some (_, _, b, a) ->
+      let pos c = match charset_names f with
+        | None -> "-"
+        | Some names ->
+          (match glyph_named names (std_sid c) with
+           | Some g when g < nglyphs_of f -> if is_ranges (List.nth f 7) then range_position f g else "+"
+           | _ -> "N") in
+      "seac" ^ charset_letter (List.nth f 7) ^ pos b ^ pos a in
   let body = body_of out in
   let out = if count_sub "#noend" out > 0 then "noend:" else out in
   let feat =
@@ -163,7 +296,7 @@ let contours_ok (cmds : string list) : bool =
 
 let inexact_allowed (input : string) : bool =
   (* a 16.16 operand (or a data byte 0xff) or a blend may occur *)
-  let f = split_on '|' input in
+  let f = fields input in
   List.nth f 8 <> "-" ||
   (let has_ff s =
      let n = String.length s in
@@ -190,7 +323,100 @@ let close_enough (a : string) (b : string) : bool =
    any other outcome of the implementation is a violation.  A panic is always a violation.  When
    the model rejects the program (ill-formed), a different rejection or an accepted path that still
    obeys the contour discipline is only a correspondence mismatch. *)
+(* ---------- seac, judged without the model's charset lookup and without its seac step ----------
+   When the case says what the glyph is (`seac` field: adx ady bchar achar endchar over plain
+   components), the outline the specification assigns is: the path of the glyph named by
+   StandardEncoding[bchar] in the charset, then the path of the glyph named by
+   StandardEncoding[achar] moved by (adx, ady).  The two component paths are the model's results for
+   those glyphs on their own (plain programs: C18_interp_spec_cff); which glyphs they are is decided
+   here from the charset data.  None: no independent expectation (Expert charsets, a code that
+   names no glyph of the font, components that are not plain integer paths). *)
+let replace_gid (input : string) (g : int) : string =
+  match fields input with
+  | m :: k :: _ :: rest -> String.concat "|" (m :: k :: string_of_int g :: rest)
+  | _ -> input
+
+let is_int_token (t : string) : bool =
+  t <> "" && String.for_all (fun c -> (c >= '0' && c <= '9') || c = '-') t
+
+let plain_path (res : string) : string list option =
+  if count_sub "#noend" res > 0 then None else
+  if kind_of res <> "ok" && kind_of res <> "bbox" then None else
+  let cmds = List.filter (fun c -> c <> "") (split_on ';' (body_of res)) in
+  if List.for_all (fun c -> match split_on ' ' c with
+      | _ :: nums -> List.for_all is_int_token nums
+      | [] -> false) cmds
+  then Some cmds else None
+
+let shift_cmd (dx : int) (dy : int) (c : string) : string =
+  match split_on ' ' c with
+  | op :: nums ->
+    String.concat " " (op :: List.mapi (fun i t ->
+        string_of_int (int_of_string t + (if i mod 2 = 0 then dx else dy))) nums)
+  | [] -> c
+
+let seac_expectation (input : string) : string option =
+  let f = fields input in
+  match seac_operands input, charset_names f with
+  | Some (adx, ady, b, a), Some names when List.nth f 1 = "t" && List.nth f 9 = "-" ->
+    let n = nglyphs_of f and gid = int_of_string (List.nth f 2) in
+    (* a code StandardEncoding leaves unencoded names no glyph: no expectation *)
+    (match glyph_named names (std_sid b), glyph_named names (std_sid a) with
+     | Some bg, Some ag when std_sid b <> 0 && std_sid a <> 0 && bg < n && ag < n && bg <> gid && ag <> gid ->
+       (match plain_path (run (replace_gid input bg)), plain_path (run (replace_gid input ag)) with
+        | Some pb, Some pa ->
+          let cmds = pb @ List.map (shift_cmd adx ady) pa in
+          let fits = List.for_all (fun c -> match split_on ' ' c with
+              | _ :: nums -> List.for_all (fun t -> let v = int_of_string t in -32768 <= v && v <= 32767) nums
+              | [] -> true) cmds in
+          Some ((if fits then "ok:" else "bbox:") ^ String.concat ";" cmds)
+        | _, _ -> None)
+     | _, _ -> None)
+  | _, _ -> None
+
+(* ---------- K = q: the SID -> glyph map of a custom charset is the inverse of its glyph -> SID list ---------- *)
+let opt_to_string (o : int option) : string = match o with Some v -> string_of_int v | None -> "-"
+
+let judge_query (input : string) (impl : string) (model : string) : verdict =
+  let f = fields input in
+  if kind_of impl = "panic" then Violation ("panic", "the charset lookup panicked") else
+  if kind_of impl <> "q" then
+    (if impl = model then Agree else Mismatch (Printf.sprintf "model %s, implementation %s" model impl))
+  else begin
+    let gids, ids = match split_on '/' (body_of impl) with
+      | [g; i] -> split_on ',' g, split_on ',' i
+      | _ -> [], [] in
+    let cs = List.nth f 7 in
+    let custom = is_ranges cs || (cs <> "" && cs.[0] = 'c') in
+    let bad = ref None in
+    (match charset_names f with
+     | Some names when custom ->
+       List.iteri (fun sid g ->
+           let want = opt_to_string (glyph_named names sid) in
+           if !bad = None && g <> want then
+             bad := Some (Printf.sprintf "sid_to_gid(%d) = %s, but the charset names glyph %s" sid g want)) gids;
+       List.iteri (fun g id ->
+           let want = opt_to_string (if g = 0 then Some 0 else
+                                       match List.nth_opt names (g - 1) with
+                                       | Some v when v <= 65535 -> Some v | _ -> None) in
+           if !bad = None && id <> want then
+             bad := Some (Printf.sprintf "id_for_glyph(%d) = %s, but the charset lists %s" g id want)) ids
+     | _ -> ());
+    match !bad with
+    | Some why -> Violation ("charset", why)
+    | None ->
+      if "q:" ^ String.concat "," gids = model then Agree
+      else Mismatch (Printf.sprintf "model %s, implementation %s" model impl)
+  end
+
 let judge (input : string) (impl : string) (model : string) : verdict =
+  if kind_field input = "q" then judge_query input impl model else
+  match (if kind_of impl = "panic" then None else seac_expectation input) with
+  | Some want when impl <> want ->
+    Violation ("seac", Printf.sprintf "seac composition: the specified outline is %s"
+                 (if String.length want > 160 then String.sub want 0 160 ^ "..." else want))
+  | Some _ when impl <> model -> Mismatch (Printf.sprintf "model %s, implementation %s (= the seac specification)" model impl)
+  | _ ->
   let noend = String.length model > 6 && String.sub model (String.length model - 6) 6 = "#noend" in
   let model = if noend then String.sub model 0 (String.length model - 6) else model in
   let contours_ok l = noend || contours_ok l in
